@@ -7,6 +7,7 @@
 package main
 
 import (
+	"io"
 	"encoding/binary"
 	"encoding/json"
 	"errors"
@@ -134,6 +135,7 @@ type instance struct {
 
 // number of failing counter reads served so far (all cases of this process): odd ones answer -1, nil
 var revFails int64
+var readFails int64
 
 type harness struct {
 	mu       sync.Mutex
@@ -306,6 +308,14 @@ func (in *instance) ReadAt(p []byte, off int64) (int, error) {
 	h, r := in.h, in.rep
 	h.order = append(h.order, r.a)
 	if h.flt(r.a, "read") {
+		// a failing read is either an error or a short count with io.EOF (the replica's backing store ends
+		// inside the range): alternate between the two
+		if atomic.AddInt64(&readFails, 1)%2 == 1 {
+			for i := 0; i < len(p)/2; i++ {
+				p[i] = byte(r.a + 1)
+			}
+			return len(p) / 2, io.EOF
+		}
 		return 0, errors.New("read failed")
 	}
 	for i := range p {
